@@ -312,6 +312,61 @@ def r_rmsd(repo):
     out += f'Definition rmsd_digits_src : nat := {int(d)}%nat.\n'
     return out
 
+def r_zone_format(repo):
+    """the '%' format of a zone line in StructureSimilarity._write_zone and its argument tuple"""
+    tree, lines = load(repo, SIM)
+    fn = find_func(find_class(tree, 'StructureSimilarity'), '_write_zone')
+    writes = [n for n in ast.walk(fn) if isinstance(n, ast.Call) and isinstance(n.func, ast.Attribute) and n.func.attr == 'write']
+    if len(writes) != 1:
+        raise Untranslatable('_write_zone: expected exactly one write call')
+    arg = writes[0].args[0]
+    if not (isinstance(arg, ast.BinOp) and isinstance(arg.op, ast.Mod) and isinstance(arg.left, ast.Constant)
+            and isinstance(arg.left.value, str) and isinstance(arg.right, ast.Tuple)):
+        fail(arg, 'zone line is not a %-format of a tuple')
+    fmt = arg.left.value
+    names = []
+    for e in arg.right.elts:
+        if not isinstance(e, ast.Name):
+            fail(e, 'zone format argument')
+        names.append(e.id)
+    # which local holds the chain / the number: chain = res[0]; num = res[1]
+    roles = {}
+    for s in ast.walk(fn):
+        if isinstance(s, ast.Assign) and isinstance(s.targets[0], ast.Name) and isinstance(s.value, ast.Subscript) \
+                and isinstance(s.value.slice, ast.Constant) and isinstance(s.value.value, ast.Name) and s.value.value.id == 'res':
+            roles[s.targets[0].id] = s.value.slice.value
+    pieces = []
+    i = 0
+    k = 0
+    lit = ''
+    while i < len(fmt):
+        if fmt[i] == '%':
+            if i + 1 >= len(fmt) or fmt[i + 1] not in 'sd' or k >= len(names):
+                raise Untranslatable(f'zone format {fmt!r}')
+            if lit:
+                pieces.append(f'ZLit {coq_string(lit)}'); lit = ''
+            role = roles.get(names[k])
+            if fmt[i + 1] == 's' and role == 0:
+                pieces.append('ZChain')
+            elif fmt[i + 1] == 'd' and role == 1:
+                pieces.append('ZNum')
+            else:
+                raise Untranslatable(f'zone format: %{fmt[i+1]} applied to {names[k]}')
+            k += 1; i += 2
+        else:
+            lit += fmt[i]; i += 1
+    if lit:
+        pieces.append(f'ZLit {coq_string(lit)}')
+    if k != len(names):
+        raise Untranslatable('zone format: unused arguments')
+    # the file must be published atomically: written to a temporary name, then os.replace
+    calls = [dotted(n.func) for n in ast.walk(fn) if isinstance(n, ast.Call) and isinstance(n.func, (ast.Attribute, ast.Name))]
+    atomic = 'tempfile.mkstemp' in calls and 'os.replace' in calls and 'open' not in calls
+    out = header(region_info(lines, fn, SIM))
+    out += 'Definition zone_format_src : list zpiece :=\n  [' + '; '.join(pieces) + '].\n'
+    out += f'Definition zone_write_atomic_src : bool := {"true" if atomic else "false"}.\n'
+    return out
+
 # ----------------------------------------------------------------------------------------
 GROUPS = {
     'Generated_parse.v': {
@@ -323,6 +378,10 @@ GROUPS = {
         'imports': 'From Verif Require Import PyLib ModelTypes.\nOpen Scope string_scope.\n',
         'regions': [('format_xyz', r_format_xyz), ('format_atomname', r_format_atomname),
                     ('export_layout', r_export_layout)],
+    },
+    'Generated_zone.v': {
+        'imports': 'From Verif Require Import PyLib ModelTypes.\nOpen Scope string_scope.\n',
+        'regions': [('zone_format', r_zone_format)],
     },
     'Generated_scores.v': {
         'imports': 'From Verif Require Import PyLib ModelTypes.\nOpen Scope string_scope.\n',
